@@ -14,7 +14,10 @@
 #define C05_SPEC_H
 _Bool nondet_bool(void); int nondet_int(void);
 typedef struct Dep Dep_t;
-struct Dep g_dep; struct Data *g_target = (struct Data *)0x1000, *g_cond = (struct Data *)0x2000; struct Vertex *g_source = (struct Vertex *)0x3000;
+/* ghosts of the vertex jobs (declared for every job: loop contracts are spliced into the shared lowered text) */
+size_t g_n, g_it, g_it_end; unsigned g_ret1, g_env_dec, g_activated_deps, g_pushed; _Bool g_stored, g_cas_won, g_on_activate_fails; long g_dep_err;
+#ifdef VF_LEMMA
+struct Dep g_dep; struct Vertex g_vertex; struct Data *g_target = (struct Data *)0x1000, *g_cond = (struct Data *)0x2000; struct Vertex *g_source = &g_vertex;
 _Bool g_has_cond, g_cond_val;                 /* the condition data's value once ready */
 _Bool g_tready, g_cready;                     /* ready flags of the two data (set by their threads before they call ready()) */
 _Bool g_done_A, g_done_T, g_done_C, g_run_A, g_run_T, g_run_C;   /* party finished / currently on the stack */
@@ -36,7 +39,9 @@ static void yield_point(void) {      /* other parties may run here, to completio
   }
 }
 long vf_atomic_fetch_add_i64(long *p, long v, int order, int site) { yield_point(); long o = *p; *p = o + v; __CPROVER_assert(order == 4 || order == 5, "K6 C05 the waiting counter is updated acq_rel"); return o; }
-long vf_atomic_fetch_sub_i64(long *p, long v, int order, int site) { yield_point(); long o = *p; *p = o - v; __CPROVER_assert(order == 4 || order == 5, "K6 C05 the waiting counter is updated acq_rel"); return o; }
+long vf_atomic_fetch_sub_i64(long *p, long v, int order, int site) {
+  if (p == &g_vertex._waiting_num) { signal_finished(); long o2 = *p; *p = o2 - v; return o2; }   /* inside the real GraphVertex::ready(dep) */
+  yield_point(); long o = *p; *p = o - v; __CPROVER_assert(order == 4 || order == 5, "K6 C05 the waiting counter is updated acq_rel"); return o; }
 _Bool Data_ready(struct Data *d) { return d == g_target ? g_tready : g_cready; }
 _Bool Data_as__bool(struct Data *d) { __CPROVER_assert(d == g_cond && g_cready, "K1 C05.dependency the condition's value is read only after it is ready"); return g_cond_val; }
 _Bool Data_acquire_immutable_depend(struct Data *d) { return 1; }      /* error exits are not part of this lemma */
@@ -45,7 +50,6 @@ void Data_trigger(struct Data *d, struct absl_InlinedVector_L_DataP_128_R *s) { 
 int32_t Data_recursive_activate(struct Data *d, struct absl_InlinedVector_L_VertexP_128_R *r, struct ClosureContext *c) { if (d == g_target) g_ttrig++; else g_ctrig++; return 0; }
 struct ClosureContext *Vertex_closure(struct Vertex *v) { return (struct ClosureContext *)0x4000; }
 void ClosureContext_finish(struct ClosureContext *c, int e) { __CPROVER_assert(0, "C05 lemma: error exit reached although no party fails"); }
-_Bool Vertex_ready(struct Vertex *v, Dep_t *d) { __CPROVER_assert(v == g_source && d == &g_dep, "K1 C05.dependency reports to its own source"); signal_finished(); return nondet_bool(); }
 struct Vertex **absl_InlinedVector_L_VertexP_128_R_emplace_back(struct absl_InlinedVector_L_VertexP_128_R *r, struct Vertex *v) { static struct Vertex *slot; slot = v; return &slot; }
 
 static void party_A(void) {
@@ -87,4 +91,67 @@ void lemma_dependency_finished_once(void) {
   if (g_ttrig > 0) __CPROVER_assert(E_HOLDS && g_done_A + g_run_A > 0, "K1 C05.dependency the target is activated only after activation and only if the condition holds");
   __CPROVER_assert(0, "VF_VACUITY_TWIN lemma reachable (must fail)");
 }
+#endif
+
+#ifdef VF_VERTEX
+/* ---- GraphVertex::activate / ready: the vertex counter.  n = number of dependencies.  Every dependency tells the vertex exactly once
+ * that it is finished (C05.dependency.lemma): either its activate() returns 1 -- these are summed in `finished` and subtracted once
+ * -- or it calls vertex.ready(dep) later (one decrement each; possibly concurrently with the rest of activate: environment).
+ * Obligations: a second activation does nothing; the counter is set to n before any dependency is activated (so no early
+ * decrement is lost); the vertex is put into the runnable set by this call exactly when its own subtraction brings the counter to
+ * zero (or it has no dependencies); a failing dependency activation is propagated. */
+struct Dep g_dep_obj[1];
+static void vf_havoc_ghosts(void) { g_n = (size_t)nondet_int(); g_ret1 = g_env_dec = g_activated_deps = g_pushed = 0; g_stored = 0; g_cas_won = 0; g_on_activate_fails = nondet_bool(); g_dep_err = 0; }
+typedef struct gnu_cxx_normal_iterator_L_DepP_std_vector_L_Dep_R_R DIt_t;
+unsigned long std_vector_L_Dep_R_size(struct std_vector_L_Dep_R *v) { return g_n; }
+DIt_t std_vector_L_Dep_R_begin(struct std_vector_L_Dep_R *v) { DIt_t r; r.p = &g_dep_obj[0]; g_it = 0; return r; }
+DIt_t std_vector_L_Dep_R_end(struct std_vector_L_Dep_R *v) { DIt_t r; r.p = &g_dep_obj[0]; g_it_end = g_n; return r; }
+_Bool gnu_cxx_normal_iterator_L_DepP_std_vector_L_Dep_R_R_op_eq(DIt_t *a, DIt_t *b) { return g_it == g_it_end; }
+DIt_t *gnu_cxx_normal_iterator_L_DepP_std_vector_L_Dep_R_R_op_inc(DIt_t *a) { g_it++; return a; }
+struct Dep *gnu_cxx_normal_iterator_L_DepP_std_vector_L_Dep_R_R_op_star(DIt_t *a) { __CPROVER_assert(g_it < g_n, "K5 C05.vertex activates only existing dependencies"); return &g_dep_obj[0]; }
+void gnu_cxx_normal_iterator_L_DepP_std_vector_L_Dep_R_R_dtor(DIt_t *a) { }
+struct GraphProcessor *std_unique_ptr_L_GraphProcessor_R_op_arrow(struct std_unique_ptr_L_GraphProcessor_R *p) { return (struct GraphProcessor *)0x5000; }
+int GraphProcessor_on_activate(struct GraphProcessor *p) { return g_on_activate_fails ? 1 : 0; }
+struct Vertex **absl_InlinedVector_L_VertexP_128_R_emplace_back(struct absl_InlinedVector_L_VertexP_128_R *r, struct Vertex *v) { static struct Vertex *slot; slot = v; g_pushed++; return &slot; }
+_Bool vf_atomic_compare_exchange_strong_bool(_Bool *p, _Bool *e, _Bool d, int s, int f, int site) { if (*p != *e) { *e = *p; return 0; } *p = d; g_cas_won = 1; return 1; }
+void vf_atomic_store_i64(long *p, long v, int order, int site) { __CPROVER_assert(g_activated_deps == 0, "K5 C05.vertex the counter is set before any dependency is activated"); *p = v; g_stored = 1; }
+long vf_atomic_fetch_add_i64(long *p, long v, int order, int site) { long o = *p; *p = o + v; return o; }
+long vf_atomic_fetch_sub_i64(long *p, long v, int order, int site) {
+  /* environment: dependencies activated so far that did not return 1 may have reported ready meanwhile */
+  unsigned k = (unsigned)nondet_int(); __CPROVER_assume(k <= g_activated_deps - g_ret1 - g_env_dec); g_env_dec += k; *p -= (long)k;
+  __CPROVER_assert(order == 4 || order == 5, "K6 C05.vertex the counter is decremented acq_rel");
+  long o = *p; *p = o - v; return o;
+}
+int Dep_activate(struct Dep *d, struct absl_InlinedVector_L_DataP_128_R *a)
+__CPROVER_requires(g_stored)                  /* asserted at the call: the counter is already set */
+__CPROVER_assigns(g_activated_deps, g_ret1, g_dep_err)
+__CPROVER_ensures(g_activated_deps == __CPROVER_old(g_activated_deps) + 1)
+__CPROVER_ensures(__CPROVER_return_value == 1 ? g_ret1 == __CPROVER_old(g_ret1) + 1 : g_ret1 == __CPROVER_old(g_ret1))
+__CPROVER_ensures(__CPROVER_return_value <= 1 && (__CPROVER_return_value < 0) == (g_dep_err != 0) && (g_dep_err == 0 || g_dep_err == __CPROVER_return_value))
+;
+int Vertex_activate(struct Vertex *v, struct absl_InlinedVector_L_DataP_128_R *a, struct absl_InlinedVector_L_VertexP_128_R *r, struct ClosureContext *c)
+__CPROVER_requires(__CPROVER_is_fresh(v, sizeof(*v)) && g_n < (1UL << 20) && g_activated_deps == 0 && g_ret1 == 0 && g_env_dec == 0 && g_pushed == 0 && g_dep_err == 0)
+__CPROVER_assigns(v->_activated, v->_closure, v->_waiting_num, g_it, g_it_end, g_ret1, g_env_dec, g_activated_deps, g_pushed, g_stored, g_cas_won, g_dep_err)
+/* only the first activation does anything */
+__CPROVER_ensures(!g_cas_won ==> (__CPROVER_return_value == 0 && g_pushed == 0 && g_activated_deps == 0 && !g_stored))
+__CPROVER_ensures(g_cas_won ==> v->_closure == c)
+__CPROVER_ensures((g_cas_won && g_n == 0) ==> (g_pushed == 1 && __CPROVER_return_value == 0))
+__CPROVER_ensures((g_cas_won && g_n > 0 && g_on_activate_fails) ==> (__CPROVER_return_value == -1 && g_pushed == 0 && g_activated_deps == 0))
+__CPROVER_ensures((g_cas_won && g_n > 0 && !g_on_activate_fails && g_dep_err != 0) ==> (__CPROVER_return_value == g_dep_err && g_pushed == 0))
+/* all dependencies activated; runnable by this call exactly when this call's subtraction brought the counter to zero, i.e. every
+ * dependency has reported by then (returned 1 here, or called ready() meanwhile) */
+__CPROVER_ensures((g_cas_won && g_n > 0 && !g_on_activate_fails && g_dep_err == 0) ==> (__CPROVER_return_value == 0 && g_activated_deps == g_n
+      && g_pushed == ((g_ret1 > 0 && g_ret1 + g_env_dec == g_n) ? 1u : 0u) && v->_waiting_num == (long)(g_n - g_ret1 - g_env_dec)))
+;
+//@loop Vertex_activate 1
+//@  __CPROVER_assigns(finished, g_it, g_ret1, g_activated_deps, g_dep_err)
+//@  __CPROVER_loop_invariant(g_it <= g_n && g_it_end == g_n && g_activated_deps == g_it && finished == (long)g_ret1 && g_ret1 <= g_it && g_dep_err == 0 && g_stored && g_env_dec == 0)
+//@  __CPROVER_decreases(g_n - g_it)
+//@end
+_Bool Vertex_ready(struct Vertex *v, struct Dep *d)
+__CPROVER_requires(__CPROVER_is_fresh(v, sizeof(*v)) && g_activated_deps == 0 && g_ret1 == 0 && g_env_dec == 0 && v->_waiting_num > -(1L << 40) && v->_waiting_num < (1L << 40))
+__CPROVER_assigns(v->_waiting_num, g_env_dec)
+__CPROVER_ensures(v->_waiting_num == __CPROVER_old(v->_waiting_num) - 1 && __CPROVER_return_value == (__CPROVER_old(v->_waiting_num) == 1))
+;
+#endif
 #endif
